@@ -72,29 +72,25 @@ theorem refLoop_entry (θ0 : Θ) (opt0 : O) (g0 : G) (n i : Nat) (hi : i < n) :
   induction n with
   | zero => omega
   | succ n ih =>
-    obtain ⟨l1, l2, l3⟩ := refLoop_lengths pr n (refInit θ0 opt0 g0 : Ref Θ O G V T P)
-    simp only [refInit, List.length_nil, Nat.zero_add] at l1 l2 l3
+    obtain ⟨l1, l2, l3⟩ := refLoop_init_lengths pr n θ0 opt0 g0 (V := V) (T := T) (P := P)
     by_cases h : i < n
     · obtain ⟨h1, h2, h3⟩ := ih h
       simp only [refLoop, refStep]
       refine ⟨?_, ?_, ?_⟩
-      · rw [List.getElem?_append_left (by simpa [refInit] using (by omega : i < n))]; exact h1
-      · rw [List.getElem?_append_left (by simpa [refInit] using (by omega : i < n))]; exact h2
-      · rw [List.getElem?_append_left (by simpa [refInit] using (by omega : i < n))]; exact h3
+      · rw [List.getElem?_append_left (by rw [l1]; exact h)]; exact h1
+      · rw [List.getElem?_append_left (by rw [l2]; exact h)]; exact h2
+      · rw [List.getElem?_append_left (by rw [l3]; exact h)]; exact h3
     · have e : i = n := by omega
       subst e
-      have hg := refLoop_gens pr θ0 opt0 g0 i
+      have hg := refLoop_gens pr θ0 opt0 g0 i (V := V) (T := T) (P := P)
       simp only [refLoop, refStep]
       refine ⟨?_, ?_, ?_⟩
-      · rw [List.getElem?_append_right (by simp [refInit] at l1 ⊢; omega)]
-        simp [refInit] at l1
-        simp [l1, θseq, optSeq, batchAt, ← hg, refInit]
-      · rw [List.getElem?_append_right (by simp [refInit] at l2 ⊢; omega)]
-        simp [refInit] at l2
-        simp [l2, θseq, optSeq, batchAt, ← hg, refInit]
-      · rw [List.getElem?_append_right (by simp [refInit] at l3 ⊢; omega)]
-        simp [refInit] at l3
-        simp [l3, θseq, batchAt, ← hg, refInit, refLoop, refStep]
+      · rw [List.getElem?_append_right (by rw [l1]; exact Nat.le_refl _), l1]
+        simp [θseq, optSeq, batchAt, ← hg]
+      · rw [List.getElem?_append_right (by rw [l2]; exact Nat.le_refl _), l2]
+        simp [θseq, optSeq, batchAt, ← hg]
+      · rw [List.getElem?_append_right (by rw [l3]; exact Nat.le_refl _), l3]
+        simp [θseq, refLoop, refStep]
 
 /-! ### the training loop refines the reference loop -/
 
